@@ -292,6 +292,9 @@ func callArgs(call ssa.CallInstruction) []ssa.Value {
 	if cc.Signature().Recv() != nil && len(cc.Args) > 0 {
 		return cc.Args[1:]
 	}
+	if g := cc.StaticCallee(); g != nil && recvAsParam[g] && len(cc.Args) > 0 {
+		return cc.Args[1:] // a method turned into a function taking its receiver first
+	}
 	return cc.Args
 }
 
@@ -301,6 +304,9 @@ func recvOf(call ssa.CallInstruction) ssa.Value {
 		return cc.Value
 	}
 	if cc.Signature().Recv() != nil && len(cc.Args) > 0 {
+		return cc.Args[0]
+	}
+	if g := cc.StaticCallee(); g != nil && recvAsParam[g] && len(cc.Args) > 0 {
 		return cc.Args[0]
 	}
 	return nil
